@@ -96,6 +96,8 @@ def run(tier, seed):
                 sfi = SINKS[cn]
                 fmt = mod.const_string(M.strip(c.ops[sfi], ("bitcast",))) if sfi is not None else None
                 args = [a for k, a in enumerate(c.ops) if k > (sfi if sfi is not None else -1)]
+                if cn in ("fputs", "puts", "fputs_unlocked") and c.ops:
+                    fmt, args = b"%s", [c.ops[0]]           # prints the string up to its NUL, exactly as "%s" does
                 if fmt != b"%s" or len(args) != 1:
                     rep.violation(rid, "%s: output call %s prints one string with format \"%%s\"" % (w, cn), c.where(), "format %r, %d arguments" % (fmt, len(args)), function=w, obj="format")
                     continue
